@@ -7,7 +7,11 @@ N_CASES = {"quick": 360, "thorough": 6000}
 N_SEARCH = {"quick": 2, "thorough": 3}
 SHARD = 200
 HAS_MODEL_OUT = True
-RULE = ("[plus, classes intr-exh/intr: operations (acquire, use, release, shutdown, second reload) attempted from another "
+RULE = ("[plus, class race-rel: 30*N (quick) / 8*N (thorough) free-running iterations in which the release of the last "
+        "reader of the served backend and the operation that retires that backend (reload to a new backend, shutdown) run in "
+        "two goroutines with a start skew that homes in on the collision of their DB.l critical sections; identical "
+        "observations are evaluated once (mult)] "
+        "[plus, classes intr-exh/intr: operations (acquire, use, release, shutdown, second reload) attempted from another "
         "goroutine while a reload is held inside DBI.Reload, inside a backend's Close, or at the reload_locked/reload_done yield "
         "points; the two operations are emitted in the order of their calls on the backends] "
         "operation histories over {acquire, use, release (3 reader slots), reload new-ok / same-ok / open-error / "
@@ -26,7 +30,9 @@ TRUSTED_BASE = [
     "local mutex m of DB.Reload; it is not a theorem (the model has no lock component) but is tested differentially: "
     "classes intr-exh/intr attempt acquire/shutdown/reload/use/release from another goroutine inside DBI.Reload, inside Close "
     "and at the reload_locked/reload_done yield points and require the observed calls to be those of SOME sequential order "
-    "of the two operations; the Go memory model is not modelled (C14's subject). The order 'goroutine publishes, then main "
+    "of the two operations; that NewReader, Destroy and the tail of DataReader.Close are each ONE critical section of DB.l is "
+    "assumed by both models and tested by the free-running class race-rel (probabilistic: the window of a split release is a "
+    "few nanoseconds); the Go memory model is not modelled (C14's subject). The order 'goroutine publishes, then main "
     "times out' cannot be forced from outside: it is proved in the model and only observed opportunistically (class race)",
     "refCount is modelled as an unbounded natural number for increments (uint64 cannot overflow with fewer than 2^64 held readers); "
     "the decrement wraps as in Go",
@@ -113,6 +119,8 @@ def case_class(c):
 
 
 def shrink_candidates(c):
+    if c.get("class") == "race-rel":
+        return  # a free-running race: a shorter history is not the same experiment
     g = c["gen"]
     for i in range(len(g)):
         yield dict(c, gen=g[:i] + g[i + 1:])
